@@ -33,7 +33,7 @@ pub const SPEC: PropSpec = PropSpec {
     ],
     run,
     replay,
-    thorough_layers: &[],
+    thorough_layers: &[("fuzz", 45)],
     quick_layers: &[],
     post: Some(super::c01::post_cfgs),
 };
@@ -487,6 +487,9 @@ fn run(ctx: &mut Ctx) {
 }
 
 fn replay(case: &Value, ctx: &mut Ctx) -> Option<String> {
+    if let Some(h) = case.get("fuzz").and_then(|v| v.as_str()) {
+        return fuzz_entry(&crate::ctx::unhex(h)).err();
+    }
     let input = input_from_json(&case["input"]);
     let c = case["config"].as_u64().unwrap_or(0) as u8;
     let mut loc = Local::new();
@@ -495,4 +498,15 @@ fn replay(case: &Value, ctx: &mut Ctx) -> Option<String> {
         Err(d) => Some(d),
         Ok(_) => None,
     }
+}
+
+/// libFuzzer entry: first byte = configuration, rest = input
+pub fn fuzz_entry(data: &[u8]) -> Result<(), String> {
+    if data.is_empty() {
+        return Ok(());
+    }
+    let mut loc = Local::new();
+    // the known finding F6 is tolerated here exactly as in the monitor
+    let known = crate::runner::known_active_for("C16").contains_key("F6");
+    check(&data[1..], data[0] & 0x7F, known, &mut loc).map(|_| ())
 }
